@@ -270,6 +270,8 @@ def verify_class(P, g, key, info, cls, rep_rules_clean):
                     return False, ("caller %s passes a pair whose rule is not established at the call (line %s): not a child taken from a parent pair, "
                                    "not the result of an unwrap_* rule check, not on a `match as_rule()` arm" % (C.key, t2["line"]))
         return True, "callers %s are the reviewed set and each passes a rule-established pair" % sorted(got)
+    if c == "D-PRECHECK":
+        return precheck_covered(P, fn, parts[1], cls.split("converters=", 1)[1].split(",") if "converters=" in cls else [])
     if c == "O-RULE":
         return True, "discharged by rule %s (run for this property)" % parts[1]
     if c == "D-CMP":
@@ -311,6 +313,134 @@ def verify_class(P, g, key, info, cls, rep_rules_clean):
     if c == "KNOWN":
         return False, "known finding " + ":".join(parts[1:])
     return False, "unknown ledger class " + cls
+
+
+def _none_side_only(P, C, chk_block, chk_t, site_block):
+    """The Option returned by the checker call is tested, and `site_block` is not reachable from the Some side of that test."""
+    from mirutil import defs_of
+    r = chk_t["d"][0]
+    refs = {r}
+    for b in C.blocks:
+        for st in b["s"]:
+            if st[0] == "a" and not st[1][1] and st[2]["k"] in ("ref", "use"):
+                src = st[2]["p"][0] if st[2]["k"] == "ref" else (op_local(st[2]["o"]) or (None,))[0]
+                if src in refs:
+                    refs.add(st[1][0])
+    some_side = []
+    for bi, b in enumerate(C.blocks):
+        t = b["t"]
+        if t["k"] == "switch":
+            ol = op_local(t["o"])
+            for st in b["s"]:
+                if st[0] == "a" and ol and st[1][0] == ol[0] and st[2]["k"] == "discr" and st[2]["p"][0] in refs:
+                    some_side += [tb for v, tb in t["t"] if v == 1] or [t["else"]]
+        if t["k"] == "call" and t.get("f") and t["args"]:
+            a0 = op_local(t["args"][0])
+            last = t["f"]["id"].rsplit("::", 1)[1]
+            if a0 and a0[0] in refs and last in ("is_none", "is_some") and "option::Option" in t["f"]["name"]:
+                bl = t["d"][0]
+                # follow the bool to its switch (possibly through `!`/moves within the successor chain)
+                for bj, b2 in enumerate(C.blocks):
+                    t2 = b2["t"]
+                    if t2["k"] != "switch":
+                        continue
+                    o2 = op_local(t2["o"])
+                    if not o2:
+                        continue
+                    root = o2[0]
+                    neg = False
+                    for _ in range(4):
+                        ds = defs_of(C, root)
+                        if len(ds) == 1 and ds[0][0] == "a" and ds[0][3]["k"] == "use" and op_local(ds[0][3]["o"]):
+                            root = op_local(ds[0][3]["o"])[0]
+                        elif len(ds) == 1 and ds[0][0] == "a" and ds[0][3]["k"] == "un" and ds[0][3].get("op") == "Not" and op_local(ds[0][3].get("a") or ds[0][3].get("o")):
+                            root = op_local(ds[0][3].get("a") or ds[0][3].get("o"))[0]
+                            neg = not neg
+                        else:
+                            break
+                    if root != bl:
+                        continue
+                    zero = [tb for v, tb in t2["t"] if v == 0]
+                    nonzero = [t2["else"]] + [tb for v, tb in t2["t"] if v != 0]
+                    is_some_true = (last == "is_some") != neg
+                    some_side += (nonzero if is_some_true else zero) if zero else []
+                    if not zero:
+                        return False
+    if not some_side:
+        return False
+    return site_block not in P.reach(C, some_side)
+
+
+def precheck_covered(P, fn, checker, converters):
+    """D-PRECHECK:<checker>:converters=<fns>.  The conversion in `fn` panics on inputs the checker function detects.  `fn` and the
+    listed converter functions hand a pest pair on to each other; every *other* function that calls one of them (the frontier)
+    must, in the same body, call the checker on a pair the converted pair derives from, at a block dominating the call, with
+    the call reachable only from the `None` outcome — or be itself only called from sites that are covered in that way
+    (one level, including the construction site of a closure)."""
+    from origins import backward_slice
+    conv = {fn.id}
+    for nm in converters:
+        g = [f for f in P.fns.values() if f.key == nm or f.id == nm]
+        if len(g) != 1:
+            return False, "converter %s named in the ledger is gone" % nm
+        conv.add(g[0].id)
+    conv |= {f.id for f in P.fns.values() if f.kind == "closure" and (f.parent in conv or getattr(f, "root", None) in conv)}
+    chk = [f for f in P.fns.values() if f.id.endswith("::" + checker) and f.kind != "closure"]
+    if len(chk) != 1:
+        return False, "checker function %s is gone" % checker
+    chk_id = chk[0].id
+    gph = P.callgraph()
+    n_sites = [0]
+
+    def site_covered(C, bi, t, depth):
+        ol = op_local(t["args"][0]) if t.get("args") else None
+        locs = backward_slice(C, ol[0])[0] if ol else set()
+        for ci, ct in P.calls(C):
+            if not ct.get("f") or ct["f"]["id"] != chk_id or not P.dominates(C, ci, bi) or ci == bi:
+                continue
+            a0 = op_local(ct["args"][0])
+            alocs = backward_slice(C, a0[0])[0] if a0 else set()
+            if ol is not None and not (alocs & locs):
+                continue
+            if _none_side_only(P, C, ci, ct, bi):
+                return True
+        return depth > 0 and fn_covered(C, depth - 1)
+
+    def fn_covered(C, depth):
+        sites = []
+        for D in P.fns.values():
+            if D.crate != C.crate:
+                continue
+            for bi, t in P.calls(D):
+                if t.get("f") and t["f"]["id"] == C.id:
+                    sites.append((D, bi, t))
+            if C.kind == "closure" and D.id == C.parent:
+                for bi, b in enumerate(D.blocks):
+                    for st in b["s"]:
+                        if st[0] == "a" and st[2]["k"] == "agg" and st[2].get("ak") == "closure" and st[2].get("id") == C.id:
+                            sites.append((D, bi, {"args": []}))
+        if not sites or C.pub:
+            return False
+        return all(site_covered(D, bi, t, depth) for D, bi, t in sites)
+
+    for cid in sorted(conv):
+        for a, outs in sorted(gph.items()):
+            if cid not in outs or a in conv or a not in P.fns:
+                continue
+            C = P.fns[a]
+            if "::test" in C.id:
+                continue
+            for bi, t in P.calls(C):
+                if not t.get("f") or t["f"]["id"] != cid:
+                    continue
+                n_sites[0] += 1
+                if not site_covered(C, bi, t, 2):
+                    return False, ("%s converts a pair with %s (line %s) without a dominating `%s(..)` check whose Some outcome leaves the path: "
+                                   "an out-of-range literal reaches the panicking conversion" % (C.key, cid.rsplit("::", 1)[1], t["line"], checker))
+    if not n_sites[0]:
+        return False, "no frontier call sites found: the converter set changed; re-derive"
+    return True, "all %d frontier conversions (callers of %s outside the converter set) are dominated by %s(..) with only the None outcome reaching them" % (
+        n_sites[0], sorted(x.rsplit("::", 1)[1] for x in conv), checker)
 
 
 def auto_discharge(P, fn, info):
